@@ -17,6 +17,7 @@ import Driver.Psd
 import Driver.Descriptor
 import Driver.Payload
 import PsdVerif.Model.Payload3Resources
+import PsdVerif.Model.Payload3Adjust
 
 namespace Driver.Payload3
 open PsdVerif PsdVerif.Codec PsdVerif.Payload PsdVerif.Payload3 Driver Driver.Psd Driver.Payload
@@ -110,7 +111,76 @@ def unit7 : List (String × Entry) := [
   ("DescriptorBlock2", entry (fun _ pad => Descriptor2Payload.codec rtb pad) pBlock2D tBlock2D)
 ]
 
-def classes : List (String × Entry) := unit7
+/-! ### unit 8 tokens -/
+
+def pLevels : P Levels := do let v ← pNat; let ev ← pOpt pNat; let items ← pList pRow; pure ⟨v, ev, items⟩
+def tLevels (x : Levels) : T := tNat x.version ++ tOpt tNat x.extraVersion ++ tList tRow x.items
+
+def pPhotoFilter : P PhotoFilter := do let v ← pNat; let a ← pRow; let b ← pRow; let c ← pRow; pure ⟨v, a, b, c⟩
+def tPhotoFilter (x : PhotoFilter) : T := tNat x.version ++ tRow x.xyz ++ tRow x.color ++ tRow x.tail
+
+def pCurvePoints : P CurvePoints := do
+  let tag ← pNat
+  if tag = 0 then do let r ← pRow; pure (.map r) else do let ps ← pList pRow; pure (.pairs ps)
+def tCurvePoints : CurvePoints → T
+  | .map r => "0" :: tRow r
+  | .pairs ps => "1" :: tList tRow ps
+def pCurvesExtraItem : P CurvesExtraItem := do let c ← pRow; let ps ← pCurvePoints; pure ⟨c, ps⟩
+def tCurvesExtraItem (x : CurvesExtraItem) : T := tRow x.channelId ++ tCurvePoints x.points
+def pCurvesExtraMarker : P CurvesExtraMarker := do let v ← pNat; let items ← pList pCurvesExtraItem; pure ⟨v, items⟩
+def tCurvesExtraMarker (x : CurvesExtraMarker) : T := tNat x.version ++ tList tCurvesExtraItem x.items
+def pCurveData : P CurveData := do
+  let tag ← pNat
+  if tag = 0 then do let ms ← pList pRow; pure (.maps ms) else do let cs ← pList (pList pRow); pure (.curves cs)
+def tCurveData : CurveData → T
+  | .maps ms => "0" :: tList tRow ms
+  | .curves cs => "1" :: tList (tList tRow) cs
+def pCurves : P Curves := do
+  let m ← pBool; let v ← pNat; let c ← pNat; let d ← pCurveData; let e ← pOpt pCurvesExtraMarker
+  pure ⟨m, v, c, d, e⟩
+def tCurves (x : Curves) : T :=
+  tBool x.isMap ++ tNat x.version ++ tNat x.countMap ++ tCurveData x.data ++ tOpt tCurvesExtraMarker x.extra
+
+/-- the marker on its own stream: the reader that remembers where it failed, seen as a plain reader -/
+def markerCodec (isMap : Bool) : PCodec CurvesExtraMarker where
+  encT := CurvesExtraMarker.encT
+  Fits := CurvesExtraMarker.Fits
+  decFits := inferInstance
+  encP := CurvesExtraMarker.encP
+  dec := fun d p => match CurvesExtraMarker.decE isMap d p with
+    | .ok r => .ok r
+    | .error (e, _) => .error e
+  consumed x := x.encT.length
+  WF x := x.version ∈ G3.curvesExtraVersions ∧ ∀ i ∈ x.items, Curves.itemWF isMap i
+  decWF _ := inferInstance
+
+def pGradientMap : P GradientMap.Val :=
+  pPair (pPair pRow pBytes) (pPair pStr (pPair (pList pRow) (pPair (pList pRow) (pPair pRow (pPair pRow (pPair pRow (pPair pRow
+    (pPair pRow pRow))))))))
+def tGradientMap : GradientMap.Val → T :=
+  tPair (tPair tRow tBytes) (tPair tStr (tPair (tList tRow) (tPair (tList tRow) (tPair tRow (tPair tRow (tPair tRow (tPair tRow
+    (tPair tRow tRow))))))))
+
+def unit8 : List (String × Entry) := [
+  ("BrightnessContrast", fixed BrightnessContrast.codec pRow tRow),
+  ("ColorBalance", fixed ColorBalance.codec (pPair pRow (pPair pRow (pPair pRow pRow))) (tPair tRow (tPair tRow (tPair tRow tRow)))),
+  ("ColorLookup", entry (fun _ pad => ColorLookup.codec rtb pad) pBlock2D tBlock2D),
+  ("ChannelMixer", fixed ChannelMixer.codec (pPair pRow (pPair pRow pBytes)) (tPair tRow (tPair tRow tBytes))),
+  ("Curves", fixed Curves.codec pCurves tCurves),
+  ("CurvesExtraMarker", entry (fun v _ => markerCodec (v != 0)) pCurvesExtraMarker tCurvesExtraMarker),
+  ("GradientMap", fixed GradientMap.codec pGradientMap tGradientMap),
+  ("ColorStop", fixed ColorStop.codec pRow tRow),
+  ("TransparencyStop", fixed TransparencyStop.codec pRow tRow),
+  ("Exposure", entry (fun _ pad => Exposure.codec pad) pRow tRow),
+  ("HueSaturation", fixed HueSaturation.codec (pPair pRow (pPair pRow (pPair pRow (pList (pPair pRow pRow)))))
+    (tPair tRow (tPair tRow (tPair tRow (tList (tPair tRow tRow)))))),
+  ("Levels", fixed Levels.codec pLevels tLevels),
+  ("LevelRecord", fixed LevelRecord.codec pRow tRow),
+  ("PhotoFilter", fixed PhotoFilter.codec pPhotoFilter tPhotoFilter),
+  ("SelectiveColor", fixed SelectiveColor.codec (pPair pRow (pList pRow)) (tPair tRow (tList tRow)))
+]
+
+def classes : List (String × Entry) := unit7 ++ unit8
 
 def lookup (cls : String) : Option Entry := (classes.find? (fun e => e.1 == cls)).map (·.2)
 
